@@ -72,6 +72,9 @@ def call(c, scripted=None):
     kw = {}
     if c['count'] != 'default':
         kw['count'] = c['count']
+        if c['count'] == 'repeat' and c.get('rseed', 0) % 2:
+            # the word as it comes out of a config file or json.loads: equal to, but not the same object as, any literal
+            kw['count'] = bytes([114, 101, 112, 101, 97, 116]).decode('ascii')
     if c['factor'] != 'default':
         kw['factor'] = c['factor']
     if c['jitter'] != 'default':
@@ -221,6 +224,12 @@ def gen(r):
         stop = nudge(stop, r.randint(-1, 1))
         if stop < start:
             stop = start
+    if r.random() < 0.05:
+        # ranges that span most of the floating-point exponents, stops next to the largest float
+        start, stop = r.choice([(1e-200, 1e200), (5e-324, 1.0), (1e-300, 1e300), (1, 1.7976931348623157e308), (1, 9e307),
+                                (3, 5e307), (0, 1e308), (1e-320, 1e-310), (2.0 ** -1074, 2.0 ** 1023), (1e300, 1.7e308)])
+        factor = r.choice(['default', 10, 3, 1e10, 1e100])
+        f = 2.0 if factor == 'default' else float(factor)
     count = r.choice(['default', 'default', 'default', 0, 1, 2, 5, 17, 'repeat', 12.0, 3.0, 1e3, 10 ** 20, 2 ** 63])
     if f == 1.0 and count == 'default':
         count = r.choice([0, 1, 3, 'repeat'])
@@ -254,7 +263,7 @@ def gen(r):
     # keep default-count sequences short
     if c['count'] == 'default' and c['start'] >= 0 and c['stop'] > 0:
         ff = 2.0 if c['factor'] == 'default' else float(c['factor'])
-        if ff > 1 and math.log(max(c['stop'] / (c['start'] or 1.0), 1.0), ff) > 5000:
+        if ff > 1 and (math.log(c['stop']) - math.log(c['start'] or min(1.0, c['stop']))) / math.log(ff) > 5000:
             c['count'] = 5
     return c
 
